@@ -181,6 +181,8 @@ func runC12(c *kit.Ctx) {
 
 	// ---- R2 ---------------------------------------------------------------
 	c.StartRule("R2", "only retryable classes are sent again", 3)
+	multiDecodesEveryResult(c)
+	regionExceptionUnchanged(c)
 	{
 		classes := map[string]bool{"RetryableError": true, "ServerError": true, "NotServingRegionError": true}
 		var retrySlice string
@@ -309,6 +311,7 @@ func runC12(c *kit.Ctx) {
 	c.StartRule("R3", "per-region order is preserved", 4)
 	if mtp := c.Anchor("region", "multi", "toProto"); mtp != nil {
 		cellblocksInActionOrder(c, mtp)
+		serialisedCallGetsAction(c, mtp)
 	}
 	{
 		// findClients: rpcByClient[rc] = append(rpcByClient[rc], rpc) with rpc the range element
